@@ -97,7 +97,9 @@ def run_path(job):
     shutil.rmtree(base, ignore_errors=True)
     dirs = {0: os.path.join(base, "d0")}
     model = DirModel(f, m, N)
-    cls = drive.solver_cls("vi")
+    solver = job.get("solver", "vi")
+    cls = drive.solver_cls(solver)
+    skw = dict(job.get("skw") or dict(gamma=G, epsilon=eps))
     fails, nodes, ops = [], [], 0
     traj = job["traj"]
 
@@ -109,7 +111,7 @@ def run_path(job):
         return Forest(**FOREST)
 
     def construct(d):
-        s = cls(mkproblem(), gamma=G, epsilon=eps, verbose=0, checkpoint_dir=d, checkpoint_frequency=f, max_checkpoints=model.m, enable_async_checkpointing=asy)
+        s = cls(mkproblem(), verbose=0, checkpoint_dir=d, checkpoint_frequency=f, max_checkpoints=model.m, enable_async_checkpointing=asy, **skw)
         workers.quiet()
         return s
 
@@ -176,7 +178,7 @@ def run_path(job):
             if fails:
                 break
         # every retained step holds the solver state of that iteration
-        if f and not fails and not lite:
+        if f and not fails and not lite and solver == "vi":
             for did, path_ in dirs.items():
                 for st in (steps_in(path_) or []):
                     chk = os.path.join(base, "chk")
@@ -221,6 +223,29 @@ def run(ctx):
             continue  # thorough: full async cross only for f in {1,2}; alternate elsewhere
         for p in paths:
             jobs.append({"f": f, "m": m, "async": asy, "eps": inst[N], "N": N, "path": list(p), "traj": traj, "base": os.path.join(scratch, "c12_%d" % len(jobs))})
+    # the save cadence is coded separately in every solver's solve() loop: the other four solvers
+    from mc.checks.C08 import RefMachine
+    from mc.ref import problems as RP
+
+    tabs = RP.forest_tables(FOREST)
+    others = {}
+    for name, kw, case in (
+        ("rvi", dict(epsilon=0.15), dict(kind="rvi", eps=0.15)),
+        ("savi", dict(gamma=G, epsilon=0.05, max_batch_size=2), dict(kind="savi", eps=0.05, gamma=G, test="span")),
+        ("pvi", dict(gamma=G, epsilon=0.01, period=3), dict(kind="pvi", eps=0.01, gamma=G, period=3)),
+    ):
+        m_ = RefMachine(dict(case, tables=tabs, init="zero"), (1, 3, 2, 0))
+        m_.solve(60)
+        if not m_.border:
+            others[name] = (kw, m_.n if m_.n < 60 else 10 ** 6)
+    rp = B.ref_pi(tabs[0], tabs[1], tabs[2], 0.9, 1e-3, "span", B.q_values(tabs[0], tabs[1], tabs[2], 0.9, np.zeros(6)).argmax(1), np.zeros(6), 50, 4, False)
+    if not rp["border"] and rp["converged"]:
+        others["pi"] = (dict(gamma=0.9, epsilon=1e-3, max_eval_iter=4), rp["n"])
+    ctx.note("other_solver_instances", {k: "N=%s %s" % (v[1], v[0]) for k, v in others.items()})
+    for name, (kw, N_) in others.items():
+        for f, m, asy in ([(1, 1, True), (2, 2, False), (3, 1, True)] if q else itertools.product((1, 2, 3), (1, 2), (False, True))):
+            for p in paths:
+                jobs.append({"solver": name, "skw": kw, "f": f, "m": m, "async": asy, "eps": kw["epsilon"], "N": N_, "path": list(p), "traj": None, "base": os.path.join(scratch, "c12_%d" % len(jobs))})
     if q:  # one configuration at depth 3 as well
         for p in [p for p in itertools.product(alphabet, repeat=3) if p[0][0] == "s"]:
             jobs.append({"f": 2, "m": 2, "async": True, "eps": inst[Ns[0]], "N": Ns[0], "path": list(p), "traj": traj, "base": os.path.join(scratch, "c12_%d" % len(jobs))})
@@ -235,12 +260,12 @@ def run(ctx):
         if "__error__" in r:
             raise RuntimeError(r["__error__"] + "\n" + r["__tb__"])
         ctx.count(transitions=r["ops"], traces=1)
-        cfgk = (j["f"], j["m"], j["async"], j["N"], j.get("lite", False))
+        cfgk = (j.get("solver", "vi"), j["f"], j["m"], j["async"], j["N"], j.get("lite", False))
         for nd in r["nodes"]:
             states.add((cfgk, nd))
-        ctx.outcome("config-less" if j.get("lite") else ("async" if j["async"] else "sync"))
+        ctx.outcome(("config-less" if j.get("lite") else ("async" if j["async"] else "sync")) + ":" + j.get("solver", "vi"))
         for f in r["fails"][:2]:
-            ctx.violation("f=%d m=%d async=%s N=%s lite=%s history=%s" % (j["f"], j["m"], j["async"], j["N"], j.get("lite", False), j["path"]), f, {k: v for k, v in j.items() if k != "traj"})
+            ctx.violation("%s f=%d m=%d async=%s N=%s lite=%s history=%s" % (j.get("solver", "vi"), j["f"], j["m"], j["async"], j["N"], j.get("lite", False), j["path"]), f, {k: v for k, v in j.items() if k != "traj"})
     ctx.count(states=len(states))
     ctx.note("history_depth", depth)
     ctx.note("operation_alphabet", alphabet)
